@@ -284,7 +284,8 @@ def match_known(known, obname, rep, native_res):
         if k.get("status") != "known":
             continue
         pat = k.get("obligation", "")
-        name_ok = bool(pat) and (pat == obname or (pat.endswith("*") and obname.startswith(pat[:-1])))
+        import fnmatch
+        name_ok = bool(pat) and (pat == obname or fnmatch.fnmatchcase(obname, pat))
         if obname.startswith("bounded/"):
             # a bounded run-time failure is identified by its concrete failing call only
             if not k.get("replay_match") or rep is None or not all(subdict_match(k["replay_match"], rep)):
